@@ -277,6 +277,11 @@ class RepeatedNodeWrapper(MutableSequence[_M]):
         self._notify_splice(r.start, r.stop, [])
         return value
 
+    def reverse(self) -> None:
+        # MutableSequence.reverse swaps items through __setitem__, which refuses nodes that are still attached.
+        values = [self.pop() for _ in range(len(self._repeated.items))]
+        self.extend(values)
+
     def __deepcopy__(self, memo: dict[int, Any]) -> 'RepeatedNodeWrapper':
         repeated = copy.deepcopy(self._repeated, memo)
         return RepeatedNodeWrapper(repeated, self._field)
